@@ -423,3 +423,85 @@ Definition guard {A} (eqA : A -> A -> bool) (d : dialect) (s : sel) (pre : list 
 Definition lim_val (s : sel) : Z :=
   match s_lim s with NoLimit => 0 | Limit c => c_val c | Fetch c _ _ => c_val c end.
 Definition nonneg (s : sel) : bool := (0 <=? lim_val s) && (0 <=? opt0 (val (s_off s))).
+
+(* ------------------------------------------------------------------------------------------------ *)
+(** * The compiled-statement cache                                                                   *)
+
+(* What the cache key of a statement retains of its row limiting clauses: their presence, whether each
+   is a plain int (_OffsetLimitParam) or another bound parameter, the FETCH options - NOT the values,
+   which are extracted and re-bound on every execution of the cached SQL. *)
+Definition same_clause_key (a b : option clause) : bool :=
+  match a, b with
+  | None, None => true
+  | Some x, Some y => Bool.eqb (c_simple x) (c_simple y)
+  | _, _ => false
+  end.
+Definition same_key (s s' : sel) : bool :=
+  match s_lim s, s_lim s' with
+  | NoLimit, NoLimit => true
+  | Limit a, Limit b => Bool.eqb (c_simple a) (c_simple b)
+  | Fetch a p t, Fetch b p' t' => Bool.eqb (c_simple a) (c_simple b) && Bool.eqb p p' && Bool.eqb t t'
+  | _, _ => false
+  end
+  && same_clause_key (s_off s) (s_off s')
+  && Bool.eqb (s_ordered s) (s_ordered s') && Bool.eqb (s_distinct s) (s_distinct s').
+
+(* the statement with its values replaced by two markers: it depends on the key only.  The plan chosen
+   for it is the TEMPLATE that is cached; [subst] is the re-binding of the current values. *)
+Definition mark_lim : Z := 1000003.
+Definition mark_off : Z := 1000033.
+Definition markers (s : sel) : sel :=
+  Sel (match s_lim s with
+       | NoLimit => NoLimit
+       | Limit c => Limit (Clause (c_simple c) mark_lim)
+       | Fetch c p t => Fetch (Clause (c_simple c) mark_lim) p t
+       end)
+      (option_map (fun c => Clause (c_simple c) mark_off) (s_off s))
+      (s_ordered s) (s_distinct s).
+Definition sv (lv ov z : Z) : Z := if z =? mark_lim then lv else if z =? mark_off then ov else z.
+Definition subst (lv ov : Z) (p : plan) : plan :=
+  let f := sv lv ov in
+  match p with
+  | PNone => PNone
+  | PLimit l o => PLimit (f l) (option_map f o)
+  | PLimitAll o => PLimitAll (f o)
+  | PMySQL o l => PMySQL (option_map f o) (f l)
+  | PFetch o n pc ti => PFetch (option_map f o) (option_map f n) pc ti
+  | PTop n pc ti => PTop (f n) pc ti
+  | PRowNumber ps lim off => PRowNumber ps (option_map f lim) (option_map f off)
+  | PRowNum inner outer lim off => PRowNum inner outer (option_map f lim) (option_map f off)
+  | PError c => PError c
+  end.
+
+(* ------------------------------------------------------------------------------------------------ *)
+(** * Compound selects (UNION ...)                                                                   *)
+
+(* SQLCompiler.visit_compound_select renders the row limiting part with self._row_limit_clause(cs)
+   only: neither translate_select_structure (the wrappers) nor get_select_precolumns (TOP) is ever
+   reached for a CompoundSelect.  Where the dialect's _row_limit_clause returns "" because it counts
+   on one of those two, the LIMIT / OFFSET is silently not rendered. *)
+Definition compound_form (d : dialect) (s : sel) : plan :=
+  match d with
+  | MSSQL offset_fetch =>
+    if negb (has_row_limiting s) then PNone
+    else if offset_fetch && negb (use_top s) then
+      match check_can_use_fetch_limit s with
+      | Some e => PError e
+      | None => PFetch (Some (opt0 (val (s_off s)))) (val (get_limit_or_fetch s)) false false
+      end
+    else PNone                                   (* MSSQLCompiler._row_limit_clause: return "" *)
+  | Oracle offset_fetch =>
+    if negb (has_row_limiting s) then PNone
+    else
+      match fetch_clause s with
+      | Some f => PFetch (val (s_off s)) (Some (c_val f)) (fetch_percent s) (fetch_ties s)
+      | None =>
+        if offset_fetch then PFetch (val (s_off s)) (val (limit_clause s)) false false
+        else PNone                               (* OracleCompiler.limit_clause: return "" *)
+      end
+  | _ => which_form d s
+  end.
+
+(* the statement has a row limiting clause and nothing is rendered for it *)
+Definition compound_dropped (d : dialect) (s : sel) : bool :=
+  has_row_limiting s && match compound_form d s with PNone => true | _ => false end.
